@@ -8,12 +8,12 @@ MC = "model_checking"
 checks = {
  "C16": dict(
     technique="explicit-state search over call histories (every sequence of k calls from a colliding alphabet), each history in a fresh process; differential oracle against the same call made first in a fresh process plus a deep, address-free fingerprint of every package-level variable",
-    text="All histories of length 3 (quick) / 4 (thorough) over 20 calls that collide on purpose (same pseudo root, same URLs, different content; every family of entry point; roots whose schema declares an id; options with an empty base; both built-in meta-schemas, also loaded and expanded in place) run in fresh processes; every call must observe exactly what it observes as the first call of a fresh process, options and roots must be unchanged, and the package-level state after every call must equal the state after one call.",
+    text="All histories of length 2 over 22 calls and of length 3 over the 14 core calls (quick; thorough: 3 and 4); the calls collide on purpose (same pseudo root, same URLs, different content; every family of entry point; roots whose schema declares an id; vendored schemas whose id is the URL of a built-in meta-schema; options with an empty base; both built-in meta-schemas, also loaded and expanded in place); each history runs in a fresh process; every call must observe exactly what it observes as the first call of a fresh process, options and roots must be unchanged, and the package-level state after every call must equal the state after one call.",
     note="Hidden state = package-level variables of package spec (enumerated from the type-checked tree). Runs on the instrumented build for a deterministic map order.",
     ref="3 C16"),
  "C17": dict(
     technique="stateless model checking of the real code under a controlled cooperative scheduler: all schedules with <= k preemptions of 2-3 thread harnesses, scheduling points at shimmed sync operations, hooked shared accesses and pool operations; vector-clock happens-before race check, sequential-answer oracle and shared-document fingerprint on every schedule; plus the auxiliary free-running pass of the same bodies under the Go race detector that a cooperative scheduler requires for unsynchronised accesses",
-    text="Thirteen harnesses (distinct roots with colliding URLs, private caches, one shared cache, a typed root and a cache shared by the WithRoot entry points, shared read-only document JSON- and gob-encoded and looked up, resolve vs expand, three threads, expansion into the built-in meta-schemas, a loaded meta-schema expanded in place next to references into it, first-ever calls racing on the lazy initialisation in fresh processes) are explored exhaustively up to 2 (quick) / 3 (thorough) preemptions; no schedule may deadlock, give a thread an answer different from its sequential answer (computed in a fresh process), contain two conflicting unordered accesses to a hooked location, modify a document the threads only share for reading, or change package state. The same bodies, each four times over, then run free under the Go race detector (25 / 150 rounds at GOMAXPROCS 2 and 16); a detector report is a violation.",
+    text="Fifteen harnesses (distinct roots with colliding URLs, ill-formed locations and ids, schemas with ids through one shared cache, private caches, one shared cache, a typed root and a cache shared by the WithRoot entry points, shared read-only document JSON- and gob-encoded and looked up, resolve vs expand, three threads, expansion into the built-in meta-schemas, a loaded meta-schema expanded in place next to references into it, first-ever calls racing on the lazy initialisation in fresh processes) are explored exhaustively up to 2 (quick) / 3 (thorough) preemptions; no schedule may deadlock, give a thread an answer different from its sequential answer (computed in a fresh process), contain two conflicting unordered accesses to a hooked location, modify a document the threads only share for reading, or change package state. The same bodies, each four times over, then run free under the Go race detector (25 / 150 rounds at GOMAXPROCS 2 and 16); a detector report is a violation.",
     note="Race check covers package-level variables and map-typed struct fields accessed in package spec; other memory only through answers. Code outside package spec runs atomically between scheduling points. Which map-access sites are scheduling points is decided by a profiling execution (sites where one map is touched by two threads).",
     ref="3 C17"),
  "C19": dict(
